@@ -58,6 +58,19 @@ CHECKS["C02"] = dict(
     note=COMMON_NOTE + " IEEE rounding is not modelled: decisions are compared outside a 1e-9 guard band; ASE constants are "
          "regenerated into Gen/Constants.v on every run.")
 
+CHECKS["C18"] = dict(
+    technique="Coq proof over the reals (Model/ForceBias.v upd_tanh/upd_exp/delta_of, Proofs/AdaptiveProofs.v, Props/C18.v) + "
+              "per-case comparison |model - impl| <= 64 ulp decided by the Coq-Interval tactic against real "
+              "AdaptiveForceBias.update_delta()",
+    text="Theorems for all lo <= hi, r > 0, v >= 0 and both shipped update functions: delta in [lo, hi], = hi at zero variance, "
+         "= midpoint at the reference variance (also the no-committee fallback), antitone in v, tending to lo. Real "
+         "update_delta() outputs (both schemes, both functions, variances 0..1e300, per-coordinate arrays, no data) are compared "
+         "with the same Coq definitions by certified interval arithmetic; variances >= 64 r are squeezed with the antitone and "
+         "range theorems instead of evaluating huge exponents.",
+    ref="§4 C18",
+    note=COMMON_NOTE + " IEEE rounding is not modelled: comparison tolerance 64 ulp of max(|lo|,|hi|); range/anchor clauses "
+         "checked with a 4-8 ulp allowance.")
+
 NA_REASON = "check not built yet in this round (see DESIGN.md §8 order of construction); no weaker technique substituted"
 
 
